@@ -54,6 +54,7 @@ class C04(Check):
         "affine/logj",
         "composite/logj",
         "composite/roundtrip",
+        "composite/argument_untouched",
     ]
     stubs = [
         "scipy.special.erf/erfinv -> sx.special symbolic versions (strictly monotone, odd, inverse pair, range, derivative rules)",
@@ -387,9 +388,17 @@ class C04(Check):
                 tr._affine_transform.fit(sx.stack([mu - sg, mu + sg]))
                 for t, t2 in zip(sx.terms(tr._affine_transform._std), sx.terms(sg)):
                     ctx.prove(t == t2, "composite/affine_state")
+            # the maps return new arrays: the caller's argument keeps its values (a kernel
+            # that reuses the buffer it handed to the target would otherwise see it change)
+            x_before = sx.terms(x)
             y, lj = tr.forward(x)
             ctx.prove(y.shape == (b, d) and lj.shape == (b,), "composite/shape")
+            ok_arg = ctx.prove(all(p.eq(q) for p, q in zip(x_before, sx.terms(x))), "composite/argument_untouched", detail={"map": "forward"})
+            y_before = sx.terms(y)
             xr, lji = tr.inverse(y)
+            ok_arg = ctx.prove(all(p.eq(q) for p, q in zip(y_before, sx.terms(y))), "composite/argument_untouched", detail={"map": "inverse"}) and ok_arg
+            if not ok_arg:
+                return
             X, Y, XR = _rows(x), _rows(y), _rows(xr)
             for i in range(b):
                 for k in range(d):
@@ -582,7 +591,17 @@ def replay_c04(cex):
 
 
 def _check_map(tr, x, bad, close, margin=False, lo=None, hi=None):
+    x0 = np.array(x, copy=True)
     y, lj = tr.forward(x)
+    if not np.array_equal(x0, x, equal_nan=True):
+        bad.append("forward() modified the array it was given")
+        x = x0.copy()
+    if not margin:
+        y0 = np.array(y, copy=True)
+        tr.inverse(y)
+        if not np.array_equal(y0, y, equal_nan=True):
+            bad.append("inverse() modified the array it was given")
+            y = y0.copy()
     if margin:
         xc = np.clip(x, lo + EPS * (hi - lo), lo + (1.0 - EPS) * (hi - lo))
         close(y, tr.forward(xc)[0], "forward inside the margin vs forward at the clipped point")
